@@ -75,6 +75,12 @@ Theorem C17_retriable_rejoins : forall grp evs k, let s := state_after grp evs i
 Proof. exact retriable_rejoins. Qed.
 Print Assumptions C17_retriable_rejoins.
 
+(* A moved / unavailable / silent (timed-out) coordinator is forgotten by that very call - client.reset_consumer_group_metadata -
+   so that the rejoin starts with a fresh coordinator lookup instead of going to the cached, possibly dead, broker (any state). *)
+Theorem C17_coordinator_forgotten : forall k s, forgets_coordinator k = true -> In OReset (snd (rejoin_after_error k s)).
+Proof. exact coordinator_forgotten. Qed.
+Print Assumptions C17_coordinator_forgotten.
+
 (* ... the armed call, once fired by the reactor, starts the join (unless one is already running). *)
 Theorem C17_timer_starts_join : forall grp evs id, let s := state_after grp evs in
   stopping s = false -> stop_requested s = false -> dc s = DcActive id -> rejoin_needed s = true -> rejoin_d s = None ->
